@@ -116,7 +116,7 @@ def compare_views(ctx, obj, norm, views, what, tagp="stale"):
 
 # ------------------------------------------------------------------------------------------------ object histories
 MUTATORS = ["setP", "setPw", "setW", "setkv", "delta", "sample", "insert", "refine", "remove", "reverse", "transpose", "flip",
-            "translate", "rotate", "scale", "redefine", "copy_edit", "ops_copy", "evaluate_range", "degree", "noop"]
+            "translate", "rotate", "scale", "redefine", "copy_edit", "ops_copy", "evaluate_range", "degree", "refused", "noop"]
 
 
 @st.composite
@@ -382,6 +382,38 @@ def apply_mutator(obj, s, st_, ctx):
             return obj, None
         obj.evaluate()
         return obj, m
+    if m == "refused":
+        # an edit the library refuses: whatever it leaves behind is still a definition whose views are consistent
+        which = s["ints"][0] % 4
+        try:
+            if which == 0:
+                bad = list(kvs[0])
+                bad[degs[0]], bad[-degs[0] - 1] = bad[-degs[0] - 1], bad[degs[0]]          # decreasing knot vector
+                if pd == 1:
+                    obj.knotvector = bad
+                else:
+                    obj.knotvector_u = bad
+            elif which == 1 and obj.rational:
+                obj.set_ctrlpts([q[:2] for q in build.stored_points(obj)], *szs)          # too few coordinates for a rational shape
+            elif which == 2 and pd >= 2:
+                k_ = s["k"] % pd
+                small = list(szs)
+                small[k_] = degs[k_]          # one point too few for the degree of that direction
+                cnt_ = 1
+                for x in small:
+                    cnt_ *= x
+                obj.set_ctrlpts(build.stored_points(obj)[:cnt_], *small)
+            else:
+                obj.delta = 1.5 if pd == 1 else tuple([1.5] * pd)
+            return obj, None          # accepted: nothing to say
+        except Exception:
+            pass
+        try:
+            fresh(obj, norm)
+        except Exception as e:
+            ctx.fail("inconsistent-after-refused-edit", "after a refused edit (%d) the stored definition cannot even be rebuilt: %s: %s (sizes %r, %d points)" % (
+                which, type(e).__name__, e, build.sizes_of(obj), len(build.stored_points(obj))))
+        return obj, m
     if m == "degree":
         # degree elevation / reduction of a one-segment (Bezier) curve through the operations layer
         if pd != 1 or szs[0] != degs[0] + 1 or degs[0] >= 6:
@@ -496,6 +528,15 @@ def check_container(case, ctx):
             want = read_cview(fr, v)
             ctx.check(_deep_eq(got, want), "container-stale-" + v if v not in dirty else "container-stale-after-element-edit-" + v,
                       "%s: container view '%s' differs from a freshly built container (got %s..., fresh %s...)" % (what, v, repr(got)[:140], repr(want)[:140]))
+            if v == "evalpts":
+                # the aggregate is what its members report at the container's density, one after the other
+                exp = []
+                for e in cont:
+                    fe = fresh(e, True)
+                    fe.delta = cont.delta
+                    exp += [list(q) for q in fe.evalpts]
+                ctx.check(_deep_eq(got, exp), "container-evalpts-not-the-members-points",
+                          "%s: container evalpts (%d points) is not the concatenation of its %d members' points at delta %r (%d points)" % (what, len(got), len(cont), cont.delta, len(exp)))
             if v in ("evalpts", "tess"):
                 cached.add(v)
 
